@@ -112,7 +112,8 @@ pub fn long_stream(rng: &mut Rng, kind: usize, n: usize) -> Vec<f64> {
 
 fn run_long(out: &mut Out, rng: &mut Rng, p: f64, data: &[f64], inv_every: usize) {
     if !out.next_case() { return; }
-    let mut q = Quantile::new(p);
+    // the median estimator is also reachable through Default (and that is how concatenate! builds it)
+    let mut q = if p == 0.5 && out.case % 2 == 0 { Quantile::default() } else { Quantile::new(p) };
     let n = data.len();
     let mut seen: Vec<f64> = Vec::with_capacity(n);
     for (i, &x) in data.iter().enumerate() {
@@ -189,7 +190,7 @@ pub fn c05(out: &mut Out, tier: &str, rng: &mut Rng) {
     }
     for &p in PS {
         if out.next_case() {
-            let q = Quantile::new(p);
+            let q = if p == 0.5 { Quantile::default() } else { Quantile::new(p) };
             dfs(out, &q, p, &[0.0, 1.0, 2.0], &mut Vec::new(), l3, false);
             out.note("dfs3");
         }
@@ -295,10 +296,11 @@ pub fn c07(out: &mut Out, tier: &str, rng: &mut Rng) {
                 // operations that must not change anything: clone, clone_from, a serde round trip - at every sample size
                 if (out.case as usize + i) % 4 == 0 {
                     let before = format!("{:?}", q);
-                    let copy: Quantile = match (out.case as usize / 4 + i) % 3 {
+                    let copy: Quantile = match (out.case as usize / 4 + i) % 4 {
                         0 => q.clone(),
                         1 => { let mut t = Quantile::new(0.5); t.add(9.0); t.clone_from(&q); t }
-                        _ => serde_json::to_string(&q).ok().and_then(|js| serde_json::from_str(&js).ok()).unwrap_or_else(|| q.clone()),
+                        2 => serde_json::to_string(&q).ok().and_then(|js| serde_json::from_str(&js).ok()).unwrap_or_else(|| q.clone()),
+                        _ => crate::binfmt::to_bytes(&q).ok().and_then(|b| crate::binfmt::from_bytes(&b).ok()).unwrap_or_else(|| Quantile::new(0.123)),
                     };
                     out.x(format!("{:?}", copy) == before, || format!("Quantile: clone / clone_from / serde round trip changed the state {} -> {:?}", before, copy));
                     q = copy;
